@@ -127,7 +127,7 @@ class World(EventDispatcher):
                 # on_add exists but dispatching is disabled
                 elif (ON_ADD_EVENT_NAME in component.__events__
                         and not self._dispatch_enabled):
-                    self.dispatch(ON_SINGLE_DISPATCH_EVENT_NAME,
+                    self.dispatch(ON_SINGLE_DISPATCH_EVENT_NAME, self,
                                   ON_ADD_EVENT_NAME,
                                   component, entity_id, self)
 
@@ -186,18 +186,21 @@ class World(EventDispatcher):
             # on_add exists but dispatching is disabled
             elif (ON_ADD_EVENT_NAME in component.__events__
                     and not self._dispatch_enabled):
-                self.dispatch(ON_SINGLE_DISPATCH_EVENT_NAME, ON_ADD_EVENT_NAME,
-                              component, entity, self)
+                self.dispatch(ON_SINGLE_DISPATCH_EVENT_NAME, self,
+                              ON_ADD_EVENT_NAME, component, entity, self)
 
-    def _on_single_dispatch(self, event, handler, *args):
+    def _on_single_dispatch(self, origin, event, handler, *args):
         """Dispatch the given event to a single handler.
 
         Designed to be used when adding or removing
         components/processors while dispatching is disabled. A World
         is always a handler of itself, listening to this event to relay
-        ``on_add`` and ``on_remove`` events.
+        ``on_add`` and ``on_remove`` events. Relays of another World
+        (this one may be a handler of it, e.g. as a component) are
+        left to that World.
         """
-        getattr(handler, handler.__events__[event])(*args)
+        if origin is self:
+            getattr(handler, handler.__events__[event])(*args)
 
     def has_component(self, entity: Hashable, component_type: type[C]) -> bool:
         """Check whether an entity has a component of the given type.
@@ -433,7 +436,7 @@ class World(EventDispatcher):
                     # on_remove exists but dispatching is disabled
                     elif (ON_REMOVE_EVENT_NAME in removed.__events__
                             and not self._dispatch_enabled):
-                        self.dispatch(ON_SINGLE_DISPATCH_EVENT_NAME,
+                        self.dispatch(ON_SINGLE_DISPATCH_EVENT_NAME, self,
                                       ON_REMOVE_EVENT_NAME,
                                       removed, entity, self)
 
@@ -491,8 +494,8 @@ class World(EventDispatcher):
             # on_add exists but dispatching is disabled
             elif (ON_ADD_EVENT_NAME in processor.__events__
                     and not self._dispatch_enabled):
-                self.dispatch(ON_SINGLE_DISPATCH_EVENT_NAME, ON_ADD_EVENT_NAME,
-                              processor)
+                self.dispatch(ON_SINGLE_DISPATCH_EVENT_NAME, self,
+                              ON_ADD_EVENT_NAME, processor)
 
     def remove_processor(self, processor_type: type[P]) -> Optional[P]:
         """Remove a processor of the given type from the system.
@@ -538,7 +541,7 @@ class World(EventDispatcher):
                 # on_remove exists but dispatching is disabled
                 elif (ON_REMOVE_EVENT_NAME in removed.__events__
                         and not self._dispatch_enabled):
-                    self.dispatch(ON_SINGLE_DISPATCH_EVENT_NAME,
+                    self.dispatch(ON_SINGLE_DISPATCH_EVENT_NAME, self,
                                   ON_REMOVE_EVENT_NAME, removed)
 
                 return removed
